@@ -17,7 +17,7 @@
                  dk default     missing|None|scalar|tuple,         dv   the value(s) (x8),
                  dty literal kind of each default value for the driver: i int | f float | b bool (<<>> = any),
                  sk metadata    none|spec,                          sv   spec default (x8)]
-     variant  : [n, set: sequence of [n parameter name, v values]]
+     variant  : [n, set: sequence of [n parameter name, v values]]   (fl: name length asked of the generator)
 
    All numbers are integers = real value * 8 (TLC has no floats; the drivers only use multiples
    of 1/8, which float32 holds exactly).
@@ -168,6 +168,14 @@ VariantCtl(L, var) ==
         ELSE LET a == CHOOSE a \in hit : \A b \in hit : b <= a      \* later assignment wins
                  i == CHOOSE i \in 1..Len(L) : L[i].n = var.set[a].n IN
              var.set[a].v[s - L[i].slot]]
+\* the file format holds variant names of at most 32 characters ("defname.key"); a longer one is refused and,
+\* as documented by the writer, so is every variant after it: the variants written are the prefix before it
+MaxVariantName == 32
+FullName(dd, var) == dd.name \o "." \o var.n
+WrittenVariants(dd) ==
+    LET long == {v \in 1..Len(dd.variants) : Len(FullName(dd, dd.variants[v])) > MaxVariantName} IN
+    IF long = {} THEN dd.variants
+    ELSE SubSeq(dd.variants, 1, (CHOOSE v \in long : \A y \in long : v <= y) - 1)
 VariantOK(L, var) ==
     \A a \in 1..Len(var.set) : \E i \in 1..Len(L) : L[i].n = var.set[a].n /\ Len(var.set[a].v) \in 1..L[i].w
 
@@ -230,6 +238,8 @@ CONSTANTS Annots,      \* annotations to use
           SpChoices,   \* set of [sk, sv]
           BoundVals,   \* prepend values
           MaxFuncs, MaxParams, MaxTotal, MaxBound, MaxVariants, MinEmit,
+          VarLens,     \* full-name lengths asked of variants (0 = whatever the short key gives)
+          VarW,        \* subset of 1..3: widths / zero mode of a variant's first assignment
           SimMode      \* TRUE under `tlc -simulate`: one random parameter per step instead of all of them
 VARIABLES d, phase
 vars == <<d, phase>>
@@ -334,12 +344,13 @@ AddVariant ==
     /\ phase = "build" /\ Len(d.variants) < MaxVariants
     /\ LET L == Layout(d) IN
        /\ Len(L) >= 1
-       /\ \E i \in 1..Len(L), i2 \in 0..Len(L), w \in 1..3 :     \* w = 3: the whole parameter set to zeros
+       /\ \E i \in 1..Len(L), i2 \in 0..Len(L), w \in VarW, fl \in VarLens :   \* w = 3: the parameter set to zeros
              LET a1 == [n |-> L[i].n, v |-> [c \in 1..(IF w = 3 THEN L[i].w ELSE Min2(w, L[i].w)) |->
                                                 IF w = 3 THEN 0 ELSE 800 + 8 * (10 * Len(d.variants) + c)]]
                  a2 == IF i2 = 0 \/ i2 = i THEN <<>>
                        ELSE <<[n |-> L[i2].n, v |-> [c \in 1..L[i2].w |-> 1600 + 8 * c]]>> IN
-             d' = [d EXCEPT !.variants = Append(@, [n |-> "v" \o ToString(Len(@)), set |-> <<a1>> \o a2])]
+             \* fl: the driver side pads the key so that Len(defname.key) = fl (the trace spec measures the real name)
+             d' = [d EXCEPT !.variants = Append(@, [n |-> "v" \o ToString(Len(@)), fl |-> fl, set |-> <<a1>> \o a2])]
     /\ UNCHANGED phase
 
 Emit == /\ phase = "build" /\ NParams(d) >= MinEmit /\ (SimMode => NParams(d) \in EmitAt)
